@@ -90,6 +90,9 @@ Paths(stmts, sigma, conds) ==
              e == Subst(s.e, sigma)
          IN CASE s.k = "assign" ->
                     Paths(rest, [x \in DOMAIN sigma \cup {s.name} |-> IF x = s.name THEN e ELSE sigma[x]], conds)
+              [] s.k = "chain" ->
+                    Paths(rest, [x \in DOMAIN sigma \cup SeqRange(s.names) |->
+                                    IF x \in SeqRange(s.names) THEN e ELSE sigma[x]], conds)
               [] s.k = "aug" ->
                     Paths(<<Assign(s.name, Bin(s.op, Var(s.name), s.e))>> \o rest, sigma, conds)
               [] s.k = "for" ->      \* a literal range is unrolled
